@@ -136,7 +136,11 @@ class TriggerHandler:
         try:
             return self._trace_call(frame, event, arg)
         except BaseException:
-            logging.exception("Cannot process trace event %s", event)
+            try:
+                logging.exception("Cannot process trace event %s", event)
+            except BaseException:
+                # e.g. the application is close to the recursion limit: there is no room left, not even to log
+                pass
             return self.trace_call
 
     def _trace_call(self, frame: FrameType, event: str, arg):
